@@ -608,7 +608,14 @@ Section Calc.
         (g <- grouped_reduce V op cast (c_fill x) data2 rows ;;
          let '(data, inv, counts) := g in Ok (mkCalc data counts axes ncols nrows rows inv kept))
       /\ length data2 = length rows /\ Sorted Z.le rows
-      /\ Permutation (combine rows data2) (map (fun e => (rowof e, snd e)) (entries x)).
+      /\ Permutation (combine rows data2) (map (fun e => (rowof e, snd e)) (entries x))
+      /\ (* the transposed array the rows were read from *)
+         exists a : coo V,
+           c_shape a = K ++ R /\ length (c_data a) = length (c_coords a) /\
+           Permutation (entries a) (map (fun e => (sel 0 p (fst e), snd e)) (entries x)) /\
+           Sorted Z.le (map (ravel (K ++ R)) (c_coords a)) /\
+           data2 = c_data a /\
+           rows = map (fun ix' => ravel K (firstn (length kept) ix')) (c_coords a).
   Proof.
     intros Hcalc. unfold coo_reduce_calc. fold sh n. rewrite Hcalc. cbn [bind]. fold kept.
     pose proof (row_perm V x axes Hnd Hax) as Hp. fold sh n kept in Hp.
@@ -662,9 +669,10 @@ Section Calc.
         cbn [c_coords]. rewrite map_map. apply map_ext_in. intros ix' Hin. rewrite Hsh'. apply Hrow2. assumption. }
     destruct Hrows as [a2 [Ha2 [Hd2 Hr2]]]. rewrite Ha2. cbn [bind].
     exists (map rowc (c_coords a)), (c_data a). rewrite Hr2, Hd2.
-    split; [reflexivity|]. split; [rewrite map_length; assumption|]. split.
+    rewrite Hsh' in Hsorted.
+    split; [reflexivity|]. split; [rewrite map_length; assumption|]. split; [|split].
     - (* rows are non-decreasing because the linear locations are *)
-      rewrite Hsh' in Hsorted. eapply Sorted_le_map_mono; [exact Hsorted|].
+      eapply Sorted_le_map_mono; [exact Hsorted|].
       intros u w Hu Hw Hle. destruct (Hco _ Hu) as [iu [_ [Hiu ->]]]. destruct (Hco _ Hw) as [iw [_ [Hiw ->]]].
       rewrite !Hrowc. destruct (Hlin iu Hiu) as [Eu [Hu1 [Hu2 _]]]. destruct (Hlin iw Hiw) as [Ew [Hw1 [Hw2 _]]].
       cbn zeta in Eu, Ew. rewrite Eu, Ew in Hle. nia.
@@ -672,6 +680,7 @@ Section Calc.
       eapply Permutation_trans; [apply Permutation_map; exact Hperm|].
       rewrite map_map. apply Permutation_refl'. apply map_ext. intros [ix v]. cbn.
       unfold rowof. cbn. f_equal. rewrite sel_app. apply Hrowc.
+    - exists a. repeat split; try assumption; reflexivity.
   Qed.
 End Calc.
 
@@ -791,7 +800,7 @@ Section Core.
         np_fold V op cast ident (map (den x) (np_cells sh kept oix)) = Ok (den out oix).
   Proof.
     intros Hcalc.
-    destruct (calc_rows V op cast x Hcan Hok axes Hnd Hax nax Hcalc) as [rows [data2 [Hk [Hlen [Hsorted Hperm]]]]].
+    destruct (calc_rows V op cast x Hcan Hok axes Hnd Hax nax Hcalc) as [rows [data2 [Hk [Hlen [Hsorted [Hperm _]]]]]].
     fold sh n kept K R ncols in Hk.
     rewrite (grouped_reduce_sorted V op cast (c_fill x) data2 rows Hlen Hsorted) in Hk. cbn [bind] in Hk.
     set (vals := vals_of V rows data2) in *.
